@@ -705,6 +705,6 @@ MANIFEST = {
     "mask is the implementation's own rolling_outlier_quantile (the statement speaks of bins that survived filtering); the virtual "
     "executor's contract (mc/vpool.py). Not covered: cbs / flasso (need R), chromosomes beyond 400 bins, VCF-driven re-segmentation, "
     "tables without a weight or depth column, gene names containing commas.",
-    "technique": "exhaustive enumeration of bin tables x option combinations on the real code against a clause-wise reference model + "
+    "technique": "exhaustive enumeration of bin tables x option combinations on the real code against a clause-wise reference model, the same clauses on every second segmentation of a short object lineage + "
     "stateless schedule enumeration (choice-sequence DFS over a virtual process pool), cross-validated against TLC's enumeration of a TLA+ model of the executor contract",
 }
